@@ -175,6 +175,17 @@ def merge_and_report(args, mod, frags, wall):
     return 0
 
 
+def stall_fragment(args, rec, stall):
+    """Fragment standing in for a shard that was killed because one case never returned."""
+    ctx = common.Ctx(args.id, args.tier, args.seed, 0, 1, load(args.id))
+    v = common.Violation("no_return", {"note": "the call had not returned after %d s of wall-clock time "
+                                                "(typical: milliseconds); the shard was killed" % stall})
+    ctx.violation(rec["subject"], common.dec(rec["case"]), v)
+    frag = ctx.fragment()
+    frag["error"] = None
+    return frag
+
+
 def run_parent(args):
     mod = load(args.id)
     n = mod.SHARDS.get(args.tier, 1) if isinstance(mod.SHARDS, dict) else 1
@@ -183,6 +194,7 @@ def run_parent(args):
     os.makedirs(scratch, exist_ok=True)
     t0 = time.time()
     limit = getattr(mod, "TIME_LIMIT", {"quick": int(os.environ.get("VERIF_QUICK_LIMIT", "900")), "thorough": 7200})[args.tier]
+    stall = getattr(mod, "STALL_LIMIT", None)
     try:
         procs = []
         for i in range(n):
@@ -192,9 +204,36 @@ def run_parent(args):
             env = dict(os.environ)
             env["VERIF_SCRATCH"] = os.path.join(scratch, "s%d" % i)
             os.makedirs(env["VERIF_SCRATCH"], exist_ok=True)
-            procs.append((subprocess.Popen(cmd, env=env), frag))
+            hb = None
+            if stall:
+                hb = env["VERIF_HEARTBEAT"] = os.path.join(scratch, "hb-%d" % i)
+            procs.append((subprocess.Popen(cmd, env=env), frag, hb))
         frags, bad = [], []
-        for p, frag in procs:
+        stalled = set()
+        while stall and any(p.poll() is None for p, _, _ in procs) and time.time() - t0 < limit:
+            time.sleep(0.5)
+            for p, frag, hb in procs:
+                if p.poll() is not None or p.pid in stalled:
+                    continue
+                try:
+                    st = os.stat(hb)
+                    if time.time() - st.st_mtime < stall:
+                        continue
+                    with open(hb) as f:
+                        cur = f.read()
+                    if not cur.startswith("{") or os.stat(hb).st_mtime != st.st_mtime:
+                        continue
+                    rec = json.loads(cur)
+                except (OSError, ValueError):
+                    continue
+                # one case has been running for `stall` seconds: the call does not come back
+                p.kill()
+                stalled.add(p.pid)
+                frags.append(stall_fragment(args, rec, stall))
+        for p, frag, hb in procs:
+            if p.pid in stalled:
+                p.wait()
+                continue
             try:
                 rc = p.wait(timeout=max(1, limit - (time.time() - t0)))
             except subprocess.TimeoutExpired:
@@ -221,6 +260,17 @@ def run_replay(args):
     mod = load(args.id)
     with open(args.replay) as f:
         rec = json.load(f)
+    stall = getattr(mod, "STALL_LIMIT", None)
+    if stall and not os.environ.get("VERIF_REPLAY_INNER"):
+        # a saved case may be one that never returns: replay it in a child that can be killed
+        cmd = [sys.executable, "-B", os.path.abspath(__file__), args.id, "--seed", str(args.seed), "--replay", args.replay]
+        try:
+            return subprocess.run(cmd, env=dict(os.environ, VERIF_REPLAY_INNER="1"), timeout=stall).returncode
+        except subprocess.TimeoutExpired:
+            print("VIOLATION property=%s replay=%s" % (args.id, args.replay))
+            print("  signature: %s" % rec["signature"])
+            print("  detail: the call had not returned after %d s" % stall)
+            return 1
     ctx = common.Ctx(args.id, "quick", args.seed, 0, 1, mod)
     ctx.replaying = True
     if hasattr(mod, "setup_for_subject"):
